@@ -253,7 +253,15 @@ func c09Blocks(rc *simrt.RunCtx) {
 	}
 	// Long static resend timeout: nothing is given up during the blackout.
 	tk := tknobs{handshake: 200 * time.Millisecond, static: true, resend: time.Duration(200+100*rc.Pick(4, "knob.resend")) * time.Millisecond}
+	// keepalive pings are DATA packets and occupy window slots too; the pong
+	// timeout is long so that the withheld acknowledgements do not end the
+	// connection during the experiment
+	if rc.Pick(2, "knob.keepalive") == 1 {
+		tk.ping = time.Duration(300+100*rc.Pick(15, "knob.ping")) * time.Millisecond
+		tk.pong = 10 * time.Minute
+	}
 	rc.Knob("N", n)
+	rc.Knob("timeouts", tk)
 	lat := &netCfg{latMin: time.Millisecond, latMax: time.Duration(1+rc.Pick(20, "net.lat")) * time.Millisecond}
 	np := newNetPair(rc, lat, &netCfg{latMin: time.Millisecond, latMax: lat.latMax})
 	var mu sync.Mutex
@@ -266,6 +274,13 @@ func c09Blocks(rc *simrt.RunCtx) {
 		}
 		return 0, 0
 	}
+	// black-box window monitor on the client's direction (pings included)
+	mon := &wireMon{rc: rc, name: "client->server", n: int(n), s: int(n) + 1}
+	np.c2s.filter = func(b []byte, _ time.Duration) (byte, time.Duration) {
+		mon.onData(b)
+		return 0, 0
+	}
+	np.s2c.tap = mon.onAck
 	opts := []Option{WithTimeoutOptions(tk.opts()...)}
 	p := startPair(rc, np, n, opts, opts)
 	if !p.waitBoth(time.Minute) {
@@ -285,12 +300,22 @@ func c09Blocks(rc *simrt.RunCtx) {
 	mu.Unlock()
 	extra := 1 + rc.Pick(3, "wl.extra")
 	total := int(n) + extra
+	pauseAt, pauseFor := -1, time.Duration(0)
+	if tk.ping != 0 && rc.Pick(2, "wl.pause") == 1 {
+		pauseAt = int(n) - 1 - rc.Pick(2, "wl.pauseat")
+		pauseFor = tk.ping + time.Duration(rc.Pick(int(tk.ping/time.Millisecond)+1, "wl.pausefor"))*time.Millisecond
+	}
 	var cmu sync.Mutex
 	returned := 0
 	sdone := make(chan struct{})
 	go func() {
 		defer close(sdone)
 		for i := 0; i < total; i++ {
+			if i == pauseAt {
+				// leave room for exactly one more packet and let the ping
+				// timer expire: the ping then fills the window
+				time.Sleep(pauseFor)
+			}
 			if err := cli.Send(mkMsg('A', i, 12)); err != nil {
 				return
 			}
@@ -317,6 +342,11 @@ func c09Blocks(rc *simrt.RunCtx) {
 	rc.Sample("N=%d extra=%d hold=%v returned-during-blackout=%d", n, extra, hold, r)
 	if r > int(n) {
 		rc.Violate("c09.send-blocks", "more-than-N-returned", "with all acknowledgements withheld %d Sends returned, window N=%d", r, n)
+	} else if r < int(n) && tk.ping != 0 {
+		// unanswered pings occupy window slots as well
+		rc.Probe("c09.pings-took-window-slots")
+		rc.Progress()
+		rc.Fault("ack-blackout")
 	} else if r < int(n) {
 		rc.Violate("c09.send-blocks", "blocked-before-window-full", "with a responsive transport only %d of the first N=%d Sends returned after %v without waiting for the peer", r, n, hold)
 	} else {
